@@ -9,12 +9,12 @@ Local Open Scope Z_scope.
 Definition cs0 (z : Z) : cs Z := CS Z 0 0 z 0 0 0 None.
 Definition air : material Z := MIdeal Z 1 0.
 Definition ex_surfs : list (surface Z) :=
-  [SObject Z (GPlane Z (cs0 (-100))) air;
+  [SObject Z (GPlane Z (cs0 (-100)) None) air;
    SStandard Z (GStd Z (cs0 0) 50 0) air (MCatalog Z "N-BK7" None true None None) true
              (Some (PRadial Z 5 0)) (Some (CSimple Z 1 0)) None false;
    SStandard Z (GEven Z (CS Z 0 0 4 0 0 0 (Some (cs0 1))) (-50) 0 1 100 [1; 2]) (MCatalog Z "N-BK7" None true None None) air
              false None None (Some (BGauss Z 1)) false;
-   SStandard Z (GPlane Z (cs0 90)) air air false None None None false].
+   SStandard Z (GPlane Z (cs0 90) None) air air false None None None false].
 Definition ex_lens : lens Z :=
   mkLens (Some (SysAp Z "EPD" 10 false)) (Some "angle") ex_surfs
          [Field Z (Some "angle") 0 0 0 0; Field Z (Some "angle") 0 7 0 0] false
@@ -51,5 +51,5 @@ Proof. vm_compute. reflexivity. Qed.
 (** an edit history on the example *)
 Example ex_edits :
   json_safe (to_dict Z 0 0 1 (-1) cat impl_now
-     (fold_left (apply_edit Z 0) [ESetRadius Z 3 40; ESetPos Z 2 0 0 5; ESetFlat Z 1; ESetIndex Z 1 2; ESetCoeff Z 2 0 9] ex_lens)) = true.
+     (fold_left (apply_edit Z 0) [ESetRadius Z 3 40; ESetPos Z 2 0 0 5; ESetFlat Z 1 None; ESetIndex Z 1 2; ESetCoeff Z 2 0 9] ex_lens)) = true.
 Proof. vm_compute. reflexivity. Qed.
